@@ -578,7 +578,20 @@ func (w *World) Hostile(s *TxSpec, cp CurParams) string {
 	}
 	if w.R.Chance(18) {
 		// the signed transaction is altered in transit in a way a sloppy canonicalisation might not notice
-		switch w.R.Intn(4) {
+		switch w.R.Intn(5) {
+		case 4:
+			// the message is replaced by one of another type that carries the same fields
+			s.Mutate = func(tx *authTypes.StdTx) {
+				switch m := tx.Msg.(type) {
+				case posTypes.MsgBeginUnstake:
+					tx.Msg = posTypes.MsgUnjail{ValidatorAddr: m.Address}
+				case posTypes.MsgUnjail:
+					tx.Msg = posTypes.MsgBeginUnstake{Address: m.ValidatorAddr}
+				default:
+					tx.Memo += "\t"
+				}
+			}
+			return "message-type-swapped-after-signing"
 		case 0:
 			s.Mutate = func(tx *authTypes.StdTx) {
 				ext := func(a sdk.Address) sdk.Address {
